@@ -64,14 +64,14 @@ class Effects:
             t = ft.type_of(expr)
             return t[1] if t and t[0] == "obj" else None
 
-        def attr_target(e):
-            """Resolve `x.a` or alias-name to (cls, attr, recv_expr) or None."""
+        def attr_targets(e):
+            """Resolve `x.a` or an alias name to [(cls, attr, recv_expr)] (a loop variable over a literal table of attributes
+            has one candidate per row)."""
             if isinstance(e, ast.Attribute):
-                return (recv_info(e.value), e.attr, e.value)
+                return [(recv_info(e.value), e.attr, e.value)]
             if isinstance(e, ast.Name) and e.id in aliases:
-                a = aliases[e.id]
-                return (recv_info(a.value), a.attr, a.value)
-            return None
+                return [(recv_info(a.value), a.attr, a.value) for a in aliases[e.id]]
+            return []
 
         method_func_attrs = set()
         for n in ast.walk(func.node):
@@ -86,34 +86,30 @@ class Effects:
                         if isinstance(t, ast.Attribute):
                             effs.append(Effect("store", recv_info(t.value), t.attr, n, t.value, func, value=n.value, stmt=n))
                         elif isinstance(t, ast.Subscript):
-                            at = attr_target(t.value)
-                            if at:
+                            for at in attr_targets(t.value):
                                 effs.append(Effect("mut", at[0], at[1], n, at[2], func, op="setitem", value=n.value, stmt=n))
             elif isinstance(n, ast.AugAssign):
                 t = n.target
                 if isinstance(t, ast.Attribute):
                     effs.append(Effect("store", recv_info(t.value), t.attr, n, t.value, func, op="aug", value=n.value, stmt=n))
                 elif isinstance(t, ast.Subscript):
-                    at = attr_target(t.value)
-                    if at:
+                    for at in attr_targets(t.value):
                         effs.append(Effect("mut", at[0], at[1], n, at[2], func, op="setitem", value=n.value, stmt=n))
                 elif isinstance(t, ast.Name) and t.id in aliases and isinstance(n.op, ast.Add):
-                    a = aliases[t.id]
-                    # `alias += [...]` mutates a list in place
-                    effs.append(Effect("mut", recv_info(a.value), a.attr, n, a.value, func, op="aug", value=n.value, stmt=n))
+                    for a in aliases[t.id]:
+                        # `alias += [...]` mutates a list in place
+                        effs.append(Effect("mut", recv_info(a.value), a.attr, n, a.value, func, op="aug", value=n.value, stmt=n))
             elif isinstance(n, ast.Delete):
                 for t in n.targets:
                     for tt in (t.elts if isinstance(t, (ast.Tuple, ast.List)) else [t]):
                         if isinstance(tt, ast.Attribute):
                             effs.append(Effect("del", recv_info(tt.value), tt.attr, n, tt.value, func, stmt=n))
                         elif isinstance(tt, ast.Subscript):
-                            at = attr_target(tt.value)
-                            if at:
+                            for at in attr_targets(tt.value):
                                 effs.append(Effect("mut", at[0], at[1], n, at[2], func, op="delitem", stmt=n))
             elif isinstance(n, ast.Call):
                 if isinstance(n.func, ast.Attribute) and n.func.attr in MUTATORS:
-                    at = attr_target(n.func.value)
-                    if at:
+                    for at in attr_targets(n.func.value):
                         effs.append(Effect("mut", at[0], at[1], n, at[2], func, op=n.func.attr, value=n.args, stmt=n))
                 if isinstance(n.func, ast.Name) and n.func.id in ("setattr", "getattr") and len(n.args) >= 2:
                     a = n.args[1]
@@ -146,7 +142,8 @@ class Effects:
 
     @staticmethod
     def _aliases(func, ft):
-        """local name -> Attribute node, when the name is bound exactly once to `<expr>.<attr>`."""
+        """local name -> [Attribute nodes]: a name bound exactly once to `<expr>.<attr>`, or a loop variable (component) over a
+        literal table whose corresponding elements are attributes (`for rec, live in ((self.a_record, self.a), ...)`)."""
         counts, val = {}, {}
         for n in ast.walk(func.node):
             if isinstance(n, ast.Assign):
@@ -154,12 +151,33 @@ class Effects:
                     if isinstance(t, ast.Name):
                         counts[t.id] = counts.get(t.id, 0) + 1
                         val[t.id] = n.value
-            elif isinstance(n, (ast.For, ast.AugAssign)):
-                t = n.target
-                for x in ast.walk(t):
+            elif isinstance(n, ast.AugAssign):
+                for x in ast.walk(n.target):
                     if isinstance(x, ast.Name):
                         counts[x.id] = counts.get(x.id, 0) + 2
-        return {k: v for k, v in val.items() if counts.get(k) == 1 and isinstance(v, ast.Attribute)}
+        out = {k: [v] for k, v in val.items() if counts.get(k) == 1 and isinstance(v, ast.Attribute)}
+        loops = {}
+        for n in ast.walk(func.node):
+            if isinstance(n, (ast.For, ast.comprehension)):
+                names = [x.id for x in ast.walk(n.target) if isinstance(x, ast.Name)]
+                cands = {}
+                if isinstance(n.iter, (ast.Tuple, ast.List)):
+                    for row in n.iter.elts:
+                        if isinstance(n.target, ast.Name) and isinstance(row, ast.Attribute):
+                            cands.setdefault(n.target.id, []).append(row)
+                        elif isinstance(n.target, (ast.Tuple, ast.List)) and isinstance(row, (ast.Tuple, ast.List)) and len(row.elts) == len(n.target.elts):
+                            for tg, el in zip(n.target.elts, row.elts):
+                                if isinstance(tg, ast.Name) and isinstance(el, ast.Attribute):
+                                    cands.setdefault(tg.id, []).append(el)
+                for nm in names:
+                    loops.setdefault(nm, []).append(cands.get(nm))
+        for nm, lst in loops.items():
+            if nm in counts or nm in out:
+                out.pop(nm, None)   # also assigned elsewhere: not a pure alias
+                continue
+            if len(lst) == 1 and lst[0]:
+                out[nm] = lst[0]
+        return out
 
     # -- queries -------------------------------------------------------------------------
     def of(self, func):
